@@ -612,15 +612,26 @@ def c04_g(ctx):
     # SMC proposals use the round generator, which is rebound only when a round starts
     smc = ctx.cls(SAMPLERS + ':SMC')
     for p in smc.overrides('prepare_new_batch'):
-        draws = ctx.calls(p, 'GMDistribution.rvs(*_)')
+        draws = [(p, d) for d in ctx.calls(p, 'GMDistribution.rvs(*_)')]
+        if not draws:
+            # the draw may live in a helper method called from prepare_new_batch
+            for c in ctx.calls(p):
+                for t in ctx.cg.resolve(p, c):
+                    if t.cls is not None and t is not p:
+                        draws += [(t, d) for d in ctx.calls(t, 'GMDistribution.rvs(*_)')]
         if not draws:
             ctx.undecided('SMC.prepare_new_batch does not draw from GMDistribution.rvs')
-        for d in draws:
+        for (q, d) in draws:
             kws = dict((k.arg, k.value) for k in d.keywords)
             ok = 'random_state' in kws and \
-                ctx.term(p, kws['random_state']) == pattern_term('self._round_random_state')
-            ctx.check(ok, p, 'round generator', 'random_state=self._round_random_state',
-                      'proposals are not drawn from the round generator', fn=p, node=d)
+                ctx.term(q, kws['random_state']) == pattern_term('self._round_random_state')
+            ctx.check(ok, q, 'round generator', 'random_state=self._round_random_state',
+                      'proposals are not drawn from the round generator', fn=q, node=d)
+            oks = 'size' in kws and ctx.term(q, kws['size']) == pattern_term('self.batch_size')
+            ctx.check(oks, q, 'one draw per batch, of the batch size', 'size=self.batch_size',
+                      'the proposals of a batch are not one draw of exactly batch_size points '
+                      '(`{}`): the stream the round generator produces for batch i then depends '
+                      'on more than (round, i)'.format(src(d)[:70]), fn=q, node=d)
     binders = []
     for c in [smc] + smc.all_subclasses():
         for m in c.methods.values():
